@@ -96,16 +96,42 @@ func genOrderCase(t *rapid.T) OrderCase {
 		}
 		rel := RelAST{}
 		other := []string{"debhelper", "gcc", "pkgconf", "outside-a", "outside-b"}
-		switch rapid.IntRange(0, 5).Draw(t, "shape") {
+		// architecture lists of 1..3 entries that do / do not contain the build architecture
+		listWith := func(label string) []string {
+			l := []string{c.Arch}
+			for i := rapid.IntRange(0, 2).Draw(t, label+"n"); i > 0; i-- {
+				l = append(l, rapid.SampledFrom([]string{"sparc", "hurd-any", "kfreebsd-amd64", "riscv64", "armhf"}).Draw(t, label))
+			}
+			return rapid.Permutation(l).Draw(t, label+"perm")
+		}
+		listWithout := func(label string) []string {
+			l := []string{}
+			for i := rapid.IntRange(1, 3).Draw(t, label+"n"); i > 0; i-- {
+				l = append(l, rapid.SampledFrom([]string{"sparc", "hurd-any", "kfreebsd-amd64", "riscv64", "armhf"}).Draw(t, label))
+			}
+			return l
+		}
+		switch rapid.IntRange(0, 8).Draw(t, "shape") {
 		case 0, 1, 2: // plain relation
 			rel.Alts = []AltAST{target}
 		case 3: // in-graph binary is the first admitted alternative: earlier ones are excluded by their arch list
-			blocked := AltAST{Name: rapid.SampledFrom(other).Draw(t, "o1"), Archs: []string{c.Arch}, ArchNot: true, Order: []string{"a"}}
+			blocked := AltAST{Name: rapid.SampledFrom(other).Draw(t, "o1"), Archs: listWith("bl"), ArchNot: true, Order: []string{"a"}}
 			rel.Alts = []AltAST{blocked, target, {Name: rapid.SampledFrom(other).Draw(t, "o2")}}
 		case 4: // in-graph binary present but NOT selected: an earlier alternative is admitted
 			rel.Alts = []AltAST{{Name: rapid.SampledFrom(other).Draw(t, "o1")}, target}
+		case 5: // in-graph binary admitted through a positive or an irrelevant negated list, after an alternative a positive list excludes
+			if rapid.Bool().Draw(t, "posneg") {
+				target.Archs, target.ArchNot = listWith("tp"), false
+			} else {
+				target.Archs, target.ArchNot = listWithout("tn"), true
+			}
+			target.Order = append(target.Order, "a")
+			rel.Alts = []AltAST{{Name: rapid.SampledFrom(other).Draw(t, "o1"), Archs: listWithout("ex"), Order: []string{"a"}}, target}
+		case 6: // a lone restricted dependency that does NOT apply on this architecture: no edge at all
+			target.Archs, target.ArchNot, target.Order = listWith("lone"), true, append(target.Order, "a")
+			rel.Alts = []AltAST{target}
 		default: // in-graph binary restricted away for this arch, substvar in front
-			target.Archs, target.ArchNot, target.Order = []string{c.Arch}, true, append(target.Order, "a")
+			target.Archs, target.ArchNot, target.Order = listWith("dn"), true, append(target.Order, "a")
 			rel.Alts = []AltAST{{Substvar: true, Name: "misc:Depends"}, target, {Name: rapid.SampledFrom(other).Draw(t, "o2")}}
 		}
 		c.Sources[v].BD[field].Rels = append(c.Sources[v].BD[field].Rels, rel)
@@ -312,5 +338,5 @@ var specC19 = Register(&Spec[OrderCase]{
 })
 
 func TestC19_Order(t *testing.T) {
-	specC19.Run(t, genOrderCase, 5000, 50000)
+	specC19.Run(t, genOrderCase, 12000, 60000)
 }
